@@ -66,6 +66,27 @@ func gosemParseExtractImpl(text string, lo, hi int) (res string) {
 	return "ok " + Hex(s)
 }
 
+// gosemParseTameExp: an exponent of 4 to 9 digits is accepted by decimal.NewFromString, but its value 10^e cannot be written down
+// (neither by big.Rat nor by the model): such exponents are cut to two digits; larger ones are beyond int32 (errors)
+func gosemParseTameExp(s string) string {
+	i := strings.IndexAny(s, "eE")
+	if i < 0 {
+		return s
+	}
+	j := i + 1
+	if j < len(s) && (s[j] == '+' || s[j] == '-') {
+		j++
+	}
+	k := j
+	for k < len(s) && s[k] >= '0' && s[k] <= '9' {
+		k++
+	}
+	if n := k - j; n >= 4 && (n <= 9 || (n == 10 && s[j:k] <= "2147483647")) {
+		return s[:j+2] + s[k:]
+	}
+	return s
+}
+
 func runGoSemParseStream(c *Ctx, n int) {
 	bt := c.NewBatch()
 	defer bt.Flush()
@@ -144,7 +165,7 @@ func runGoSemParseStream(c *Ctx, n int) {
 			b.Reset()
 			b.WriteString(s[:pos] + Pick(r, odd) + s[pos:])
 		}
-		xs := b.String()
+		xs := gosemParseTameExp(b.String())
 		implX := gosemParseDecImpl(xs)
 		cmp(i, "dec", map[string]any{"s": xs}, implX, Hex(xs))
 		c.Class("gosemparse/dec/" + strings.Fields(implX)[0] + "/len" + bucket(len(xs)))
